@@ -283,6 +283,11 @@ class Snapshot:
         storage = url_to_storage_plugin_in_event_loop(
             url_path=path, event_loop=event_loop, storage_options=storage_options
         )
+        # Agree on an id for this snapshot: the store-based barrier used to
+        # commit in the background derives its keys from it, and those keys
+        # outlive the snapshot in the job-wide store.
+        barrier_id_list = [unique_id]
+        pg_wrapper.broadcast_object_list(barrier_id_list, src=0)
 
         pending_io_work, metadata = cls._take_impl(
             path=path,
@@ -316,6 +321,7 @@ class Snapshot:
             event_loop=event_loop,
             storage_options=storage_options,
             unique_id=unique_id,
+            barrier_id=barrier_id_list[0],
         )
 
     def restore(self, app_state: AppState, strict: bool = True) -> None:
@@ -975,6 +981,7 @@ class PendingSnapshot:
         event_loop: asyncio.AbstractEventLoop,
         unique_id: Optional[int],
         storage_options: Optional[Dict[str, Any]] = None,
+        barrier_id: Optional[int] = None,
     ) -> None:
         self.path = path
         self.pg: Optional[dist.ProcessGroup] = pg_wrapper.pg
@@ -995,6 +1002,7 @@ class PendingSnapshot:
                 "storage": storage,
                 "event_loop": event_loop,
                 "store": get_or_create_store(pg_wrapper=pg_wrapper),
+                "barrier_id": barrier_id,
             },
         )
         self.thread.start()
@@ -1009,6 +1017,7 @@ class PendingSnapshot:
         storage: StoragePlugin,
         event_loop: asyncio.AbstractEventLoop,
         store: dist.TCPStore,
+        barrier_id: Optional[int] = None,
     ) -> None:
         # WARNING: do not use any collectives in this method
 
@@ -1016,7 +1025,11 @@ class PendingSnapshot:
         # Use a dist.Store-based barrier for synchronization so that the
         # snapshot can be committed in the background thread.
         barrier = LinearBarrier(
-            prefix=f"torchsnapshot_{path}",
+            prefix=(
+                f"torchsnapshot_{path}"
+                if barrier_id is None
+                else f"torchsnapshot_{path}_{barrier_id}"
+            ),
             store=store,
             rank=rank,
             world_size=world_size,
